@@ -23,6 +23,9 @@ import (
 const c24Day = uint64(86400) * 1000000000
 
 // a fixed noon, so that every generated timestamp is on one day (prepareAnnouncement compares days)
+// the UTC midnight after c24T0
+const c24Midnight = (uint64(1790000000)*1000000000/c24Day + 1) * c24Day
+
 const c24T0 = (uint64(1790000000)*1000000000/c24Day)*c24Day + c24Day/2
 
 type c24Agg struct {
@@ -272,7 +275,9 @@ func execC24(st *State, line string) Result {
 	for _, a := range c.aggs {
 		txsOf[a.hash] = a.txs
 	}
-	var owned []int
+	var owned, sanityTxs, announced, guardedKeys []int
+	notInstalled := false
+	orig := t[0]
 	out, panicked, msg := Catch(func() string {
 		switch t[0] {
 		case "expire":
@@ -299,14 +304,36 @@ func execC24(st *State, line string) Result {
 				hs = append(hs, c.key(e, x))
 			}
 			c.h.Reset(hs)
-		case "announce": // announce hash round ts ntx txs…
+		case "selfsanity": // selfsanity ntx txs…  (first transaction finalized in another snapshot)
+			sanityTxs = ints(t[2:])
+			var hs []crypto.Hash
+			for _, x := range sanityTxs {
+				hs = append(hs, c.key(e, x))
+			}
+			n, err := e.node.VerifC24HandleSelfEmpty(hs)
+			if err != nil || n != 0 {
+				panic(fmt.Sprintf("harness: c24: selfsanity: %d aggregators, %v", n, err))
+			}
+		case "announce", "announceat": // announce hash round ts ntx txs… | announceat hash round ts roundTs cft ntx txs…
 			round, ts := uint64(c31Atoi(t[2])), uint64(c31Atoi(t[3]))
+			cft := ts - config.SnapshotRoundGap/2
+			roundTs := cft - 1
+			rest := t[4:]
+			if t[0] == "announceat" {
+				roundTs, cft = uint64(c31Atoi(t[4])), uint64(c31Atoi(t[5]))
+				rest = t[6:]
+			}
+			t = append([]string{"announce", t[1], t[2], t[3]}, rest...)
 			var txs []*common.VersionedTransaction
 			for _, x := range ints(t[5:]) {
 				txs = append(txs, c.tx(e, x, 'm'))
 			}
-			cft := ts - config.SnapshotRoundGap/2
-			installed, _, err := c.h.Announce(round, ts, cft-1, cft, txs)
+			announced = ints(t[5:])
+			_, versBefore := c.h.Dump()
+			for _, v := range versBefore {
+				guardedKeys = append(guardedKeys, c.byHash[v.Key])
+			}
+			installed, _, err := c.h.Announce(round, ts, roundTs, cft, txs)
 			if err != nil {
 				panic("harness: c24: announce: " + err.Error())
 			}
@@ -321,10 +348,25 @@ func execC24(st *State, line string) Result {
 				c.aggs = append(c.aggs, c24Agg{hash: c31Atoi(t[1]), round: int(round), ts: ts, commitments: 1, txs: ints(t[5:])})
 				res.Tags = append(res.Tags, "announce:installed")
 			} else {
-				res.Tags = append(res.Tags, "announce:guarded")
+				res.Tags = append(res.Tags, "announce:not-installed")
+				notInstalled = true
+				switch {
+				case ts <= roundTs:
+					res.Tags = append(res.Tags, "announce:deferred-stale")
+				case ts > cft+config.SnapshotRoundGap*4/5:
+					res.Tags = append(res.Tags, "announce:deferred-cutoff")
+				case ts/c24Day != cft/c24Day:
+					res.Tags = append(res.Tags, "announce:deferred-day")
+				default:
+					res.Tags = append(res.Tags, "announce:guarded")
+				}
 			}
 			base := e.node.ConsensusThreshold(ts, false)
-			res.LeanIn = fmt.Sprintf("announce %s %s %s %s %d %s", t[1], t[2], t[3], t[1], base, strings.Join(t[4:], " "))
+			if orig == "announceat" {
+				res.LeanIn = fmt.Sprintf("announceat %s %s %s %s %d %d %d %s", t[1], t[2], t[3], t[1], base, roundTs, cft, strings.Join(t[4:], " "))
+			} else {
+				res.LeanIn = fmt.Sprintf("announce %s %s %s %s %d %s", t[1], t[2], t[3], t[1], base, strings.Join(t[4:], " "))
+			}
 		default:
 			panic("harness: unknown op " + t[0])
 		}
@@ -338,6 +380,21 @@ func execC24(st *State, line string) Result {
 	}
 	// property mode, from the Go-side observations only
 	aggsAfter, queueAfter := c.aggIds(), c.queue(e)
+	for _, x := range sanityTxs {
+		if c.pending(x) && !c24Contains(queueAfter, x) {
+			res.PropKey = "C24:retired-tx-lost"
+			res.PropDesc = fmt.Sprintf("self proposal abandoned at the sanity check (transaction %d finalized in another snapshot) but its pending transaction %d is not in the cache queue", sanityTxs[0], x)
+		}
+	}
+	if notInstalled {
+		for _, x := range announced {
+			// a transaction with a verifier entry is owned by an existing proposal (duplicate guard)
+			if c.pending(x) && !c24Contains(queueAfter, x) && !c24Contains(guardedKeys, x) {
+				res.PropKey = "C24:deferred-tx-lost"
+				res.PropDesc = fmt.Sprintf("self proposal %s was deferred (no aggregator installed) but its pending transaction %d is not in the cache queue", strings.Join(t, " "), x)
+			}
+		}
+	}
 	if t[0] == "expire" || t[0] == "retry" || t[0] == "resetround" {
 		retired := 0
 		for _, a := range aggsBefore {
@@ -396,6 +453,13 @@ func init() {
 			"them plus deviations, then 1-3 of expire (now at ts+gap-1, ts+gap, ts+gap+1 …), retry, abandon, resetround; announced states: proposals " +
 			"installed by the real cosiSendAnnouncement at distances around one round gap, then expire; non-trivial = the op returned; distinct = distinct model input line",
 		Corpus: [][]string{
+			// deferral across the UTC day boundary: round opened 1 s before midnight, proposal 1.5 s later
+			{"reset", "tx 1 c", "tx 2 p", "tx 3 f", fmt.Sprintf("announceat 1001 2 %d %d %d 3 1 2 3", c24Midnight+500000000, c24Midnight-1000000001, c24Midnight-1000000000)},
+			// after the 4/5 cutoff; not after the round timestamp
+			{"reset", "tx 1 c", "tx 2 q", fmt.Sprintf("announceat 1001 2 %d %d %d 2 1 2", c24T0+2400000001, c24T0-1, c24T0),
+				fmt.Sprintf("announceat 1002 2 %d %d %d 2 1 2", c24T0+5, c24T0+5, c24T0)},
+			// batch abandoned at the sanity check: first transaction finalized in another snapshot
+			{"reset", "tx 1 f", "tx 2 c", "tx 3 p", "tx 4 m", "selfsanity 4 1 2 3 4"},
 			// the repository's own scenario (TestCosiRoundResetRequeuesOrphanedTransactions)
 			{"reset", "tx 1 c", "tx 2 c", "agg 1000 0 0 0 0 2 1 2", "ver 1000 0 0 0", "ver 1 0 0 0", "ver 2 0 0 0", "resetround 1 1"},
 			// two real announcements one round gap apart sharing a transaction, then expiry of the first
@@ -405,6 +469,9 @@ func init() {
 				fmt.Sprintf("expire %d", c24T0+gap)},
 		},
 		Gen: func(r *Rand, i int, tier string) []string {
+			if r.Chance(1, 5) {
+				return c24GenDeferral(r)
+			}
 			ops := []string{"reset"}
 			kinds := "ccccppffmq"
 			for id := 1; id <= 7; id++ {
@@ -501,4 +568,67 @@ func init() {
 		},
 		Exec: execC24,
 	})
+}
+
+// c24GenDeferral: self proposals at the boundaries of every early return of prepareAnnouncement
+// (round timestamp, 4/5 round-gap cutoff, UTC day of the round's first snapshot), and batches
+// abandoned at the sanity check because their first transaction is finalized elsewhere.
+func c24GenDeferral(r *Rand) []string {
+	gap := uint64(config.SnapshotRoundGap)
+	ops := []string{"reset"}
+	kinds := "ccppfmq"
+	for id := 1; id <= 5; id++ {
+		ops = append(ops, fmt.Sprintf("tx %d %c", id, kinds[r.Intn(len(kinds))]))
+	}
+	ops = append(ops, "tx 6 f")
+	batch := func(first string) string {
+		m := r.Range(1, 4)
+		var txs []string
+		if first != "" {
+			txs = append(txs, first)
+		}
+		seen := map[int]bool{}
+		for len(txs) < m {
+			x := r.Range(1, 5)
+			if !seen[x] {
+				seen[x] = true
+				txs = append(txs, strconv.Itoa(x))
+			}
+		}
+		return fmt.Sprintf("%d %s", len(txs), strings.Join(txs, " "))
+	}
+	for k := r.Range(1, 3); k > 0; k-- {
+		if r.Chance(1, 4) {
+			ops = append(ops, "selfsanity "+batch("6"))
+			continue
+		}
+		var cft uint64
+		switch r.Intn(3) {
+		case 0: // round opened shortly before midnight
+			cft = c24Midnight - uint64(Pick(r, []int{1, 2, 1000000000, 2399999999, 2400000000, 2400000001, 2999999999}))
+		case 1: // shortly after midnight
+			cft = c24Midnight + uint64(r.Intn(3))
+		default:
+			cft = c24T0 + uint64(r.Intn(1000))
+		}
+		roundTs := cft - uint64(r.Intn(2))
+		var ts uint64
+		switch r.Intn(5) {
+		case 0:
+			ts = roundTs + uint64(r.Intn(3)) // around the round timestamp
+		case 1:
+			ts = cft + gap*4/5 + uint64(r.Intn(3)) - 1 // around the cutoff
+		case 2:
+			ts = c24Midnight + uint64(r.Intn(3)) - 1 // around midnight
+		case 3:
+			ts = cft + gap - 1 - uint64(r.Intn(2))
+		default:
+			ts = cft + uint64(r.Intn(int(gap)))
+		}
+		if ts >= cft+gap || ts+gap < cft {
+			ts = cft + gap/2
+		}
+		ops = append(ops, fmt.Sprintf("announceat %d 2 %d %d %d %s", 1001+k, ts, roundTs, cft, batch("")))
+	}
+	return ops
 }
